@@ -5,7 +5,7 @@ import MsqProofs.Lemmas.ParseKCase4
 /-!
 # C09, parser half — hand-written part 8: facts for the statement level
 A word popped by `popSrc` is used by the DDL / DML parsers in three ways: stored as it is, stored after `unifyName` (back-quotes stripped),
-or looked km in the compare-operator table: `ksrcRel` says that two popped words agree in all three.
+or looked up in the compare-operator table: `ksrcRel` says that two popped words agree in all three.
 -/
 set_option linter.unusedSimpArgs false
 set_option linter.unusedVariables false
@@ -24,9 +24,9 @@ theorem popSrc_ke2 : ∀ x0 y0, KEL x0 y0 → KER ksrcRel (popSrc x0) (popSrc y0
 grind_pattern popSrc_ke2 => popSrc x0, popSrc y0
 
 @[grind =] theorem up_appendK (a b : String) : up (a ++ b) = up a ++ up b := up_append a b
-/-- the look-km of the saving mode of a generated column, as a function of the upper-cased word alone -/
+/-- the look-up of the saving mode of a generated column, as a function of the upper-cased word alone -/
 def genModeOfK (u : String) : Option (String × String) := Gen.genColSaveModes.find? (fun x => x.1 == u)
-theorem genModes_findK (s : String) : Gen.genColSaveModes.find? (fun x => x.1 == km s) = genModeOfK (km s) := rfl
+theorem genModes_findK (s : String) : Gen.genColSaveModes.find? (fun x => x.1 == up s) = genModeOfK (up s) := rfl
 
 theorem emptyCreate_ke (t t' : TableName) (b : Bool) (h : kmTN t = kmTN t') : kmCR (emptyCreate t b) = kmCR (emptyCreate t' b) := by
   simp [emptyCreate, kmCR, h]
